@@ -680,9 +680,9 @@ func init() {
 	})
 	register(&Prop{
 		ID: "C05", Level: "exploration", Batch: 16, PerCaseTimeout: 90 * time.Second,
-		Rule:  "case i = PRNG(seed,i) plan whose every action has Retries 0-4 and a script of up to Retries+2 outcomes over {ok, transient, permanent, wrongtype, wrongtype together with a retryable error, right type with the wrong pointer-ness, overrun}; stored through vault.Create so that overrun actions can have a 60 ms timeout; every 10th case explores every crash point of a strictly sequential plan with retry budgets and transient failures and checks the call budget against the durable attempts, the total number of calls across the crash and the final attempt record; non-trivial = the case contained a retried, overrun or wrong-type invocation; distinct by script hash",
+		Rule:  "case i = PRNG(seed,i) plan whose every action has Retries 0-4 and a script of up to Retries+2 outcomes over {ok, transient, permanent, wrongtype, wrongtype together with a retryable error, right type with the wrong pointer-ness, overrun}; stored through vault.Create so that overrun actions can have a 60 ms timeout; every 10th case explores every crash point of a strictly sequential plan with retry budgets and transient failures and checks the call budget against the durable attempts, the total number of calls across the crash and the final attempt record; every 40th case is a cosmosdb crash case (process death between two client writes, plans with re-run continuous checks that have retry budgets) whose recovered plans must carry consistent attempt records (no attempts on a NotStarted action, status agrees with the final attempt); non-trivial = the case contained a retried, overrun or wrong-type invocation; distinct by script hash",
 		Cases: nCases(80, 2500),
-		Run: everyNth(10, c05Crash, engineRun("C05", attemptsProfile, func(c *eng.Case, run *eng.Run, pr *eng.PlanRun, t *oracle.Trace, res *CaseResult) {
+		Run: everyNth(40, cosmosFor("C05"), everyNth(10, c05Crash, engineRun("C05", attemptsProfile, func(c *eng.Case, run *eng.Run, pr *eng.PlanRun, t *oracle.Trace, res *CaseResult) {
 			res.Viols = append(res.Viols, oracle.C05(pr.Spec, t, pr.P0)...)
 			var sb strings.Builder
 			for _, inv := range t.Invs {
@@ -698,7 +698,7 @@ func init() {
 			}
 			res.Counters["actions_observed"] += len(t.ByTag)
 			res.Nontriv = hashStr(sb.String())
-		}, false)),
+		}, false))),
 		RaceAttr:      raceHas("actions.Runner", "actions.run"),
 		MinNontrivial: 30,
 		Assumptions:   []string{"an engine that makes fewer than Retries+1 calls after a retryable failure is reported (rule no-retry) only when budget remained and no later call happened", "plans are stored with vault.Create (Submit enforces timeouts >= 5 s)"},
